@@ -63,6 +63,7 @@ func execFunctionCall(context *exprContext, expr *grammar.Grammar) error {
 	for _, cn := range expr.BSR.GetAllNTChildren() {
 		for _, c := range cn {
 			children = append(children, &c)
+			break
 		}
 	}
 
@@ -115,6 +116,7 @@ func gatherFunctionArgs(b *bsr.BSR, args *[]*bsr.BSR) {
 	for _, cn := range b.GetAllNTChildren() {
 		for _, c := range cn {
 			children = append(children, &c)
+			break
 		}
 	}
 
